@@ -80,6 +80,51 @@ def _dominating_tests(g, dom, node):
     return [g.nodes[i] for i in dom[node.id] if g.nodes[i].kind in ("test", "while")]
 
 
+def _side_of(g, dom, tnode, node):
+    """'t' / 'f' if `node` can only be reached through that outcome of the dominating test `tnode` (the successor on that edge
+    dominates it and the other one does not), else None (reachable through both outcomes)."""
+    sides = {}
+    for k, s in tnode.succ:
+        if k in ("t", "f", "loop", "done"):
+            kk = "t" if k in ("t", "loop") else "f"
+            sides[kk] = s
+    on = [k for k, s in sides.items() if s.id in dom[node.id] or s is node]
+    return on[0] if len(on) == 1 else None
+
+
+def _count_is_one_guard(g, dom, node, sep):
+    """Is `node` only reached when `<x>.count(sep) == 1` holds?  (through the true side of `== 1`, the false side of `!= 1`,
+    also as a conjunct of the test)"""
+    for t in _dominating_tests(g, dom, node):
+        side = _side_of(g, dom, t, node)
+        if side is None:
+            continue
+        def has(e, positive):
+            # does outcome `positive` of expression e imply count == 1?
+            if isinstance(e, ast.UnaryOp) and isinstance(e.op, ast.Not):
+                return has(e.operand, not positive)
+            if isinstance(e, ast.BoolOp):
+                if isinstance(e.op, ast.And) and positive:
+                    return any(has(v, True) for v in e.values)
+                if isinstance(e.op, ast.Or) and not positive:
+                    return any(has(v, False) for v in e.values)
+                return False
+            if isinstance(e, ast.Compare) and len(e.ops) == 1:
+                l, r_ = e.left, e.comparators[0]
+                if isinstance(r_, ast.Call) and isinstance(l, ast.Constant):
+                    l, r_ = r_, l
+                if isinstance(l, ast.Call) and isinstance(l.func, ast.Attribute) and l.func.attr == "count" and l.args and isinstance(l.args[0], ast.Constant) \
+                        and l.args[0].value == sep and isinstance(r_, ast.Constant) and r_.value == 1:
+                    if isinstance(e.ops[0], ast.Eq):
+                        return positive
+                    if isinstance(e.ops[0], ast.NotEq):
+                        return not positive
+            return False
+        if has(t.ast, side == "t"):
+            return True
+    return False
+
+
 def _guard_raises_on_failure(g, tnode, kind_needed="ValueError"):
     """One side of the test leads straight to `raise ValueError`."""
     for k, s in tnode.succ:
@@ -145,8 +190,7 @@ def check_totality(ctx):
                         and isinstance(x.value.func, ast.Attribute) and x.value.func.attr == "split" and x.value.args and isinstance(x.value.args[0], ast.Constant):
                     n_ops += 1
                     sep = x.value.args[0].value
-                    tests = [t for t in _dominating_tests(g, dom, node) if f"count('{sep}') == 1" in norm(t.ast)]
-                    if not tests:
+                    if not _count_is_one_guard(g, dom, node, sep):
                         ctx.bad("C14.2", f, x, f"a 2-way unpack of split('{sep}') is not dominated by count('{sep}') == 1: `a=b=c` raises a bare unpacking ValueError/"
                                 "TypeError with an unrelated message or is mis-parsed")
                     else:
@@ -269,8 +313,10 @@ def check_modifier_loop(ctx):
                     return True
             if t == "elem":
                 return True
-            if isinstance(e, ast.Compare) and t.startswith("elem.count('=')"):
-                return char == "name="
+            if isinstance(e, ast.Compare) and t.startswith("elem.count('=')") and len(e.ops) == 1 and isinstance(e.ops[0], (ast.Eq, ast.NotEq)) \
+                    and isinstance(e.comparators[0], ast.Constant) and e.comparators[0].value == 1:
+                v = char == "name="
+                return v if isinstance(e.ops[0], ast.Eq) else not v
             if isinstance(e, ast.Name):
                 return flags.get(e.id)  # None = unknown: both sides are explored
             raise AnalysisError(f"C14.3: unrecognised condition `{t}` in the modifier loop")
